@@ -915,7 +915,8 @@ where
                         // the announced body (everything after the count) is skipped
                         let rest = len.checked_sub(1).ok_or(Error::InvalidLength)?;
                         if rest > 0 {
-                            let _ = self.reader.read_bytes(rest)?;
+                            self.reader
+                                .forward_read_bytes_with_hint(rest, de::IgnoredAny)?;
                         }
                         visitor.visit_seq(ArrayAccess::new(self, 0, count))
                     }
@@ -960,7 +961,8 @@ where
                         // See `Array8` arm above
                         let rest = len.checked_sub(4).ok_or(Error::InvalidLength)?;
                         if rest > 0 {
-                            let _ = self.reader.read_bytes(rest)?;
+                            self.reader
+                                .forward_read_bytes_with_hint(rest, de::IgnoredAny)?;
                         }
                         visitor.visit_seq(ArrayAccess::new(self, 0, count))
                     }
